@@ -189,18 +189,50 @@ class ObjTheory(BaseTheory):
                 return Z("bool", suffixof(s, sval(args[0])))
         return super().call_method(ex, recv, name, args, kwargs)
 
-    # any(<generator expression>) / all(...) where nothing is known about the iterated collection: either outcome
+    # any(<generator expression>) / all(...):
+    #  - over a tuple / list display (or a local bound to one): evaluated element by element with Python's short circuit
+    #  - where nothing is known about the iterated collection: either outcome
     def comprehension(self, ex, node):
         if isinstance(node, ast.GeneratorExp):
+            if len(node.generators) == 1 and not node.generators[0].is_async:
+                try:
+                    itv = ex.expr(node.generators[0].iter)
+                except Untranslatable:
+                    itv = None
+                items = itv.items if isinstance(itv, TupV) else (
+                    [Conc(x) for x in itv.v] if isinstance(itv, Conc) and isinstance(itv.v, (tuple, list)) else None)
+                if items is not None:
+                    return ObjV("lazy-gen", info={"node": node, "items": list(items)})
             return ObjV("opaque-gen", info={"src": ast.unparse(node)})
         return super().comprehension(ex, node)
 
+    def _short_circuit(self, ex, gen, stop_on):
+        """any (stop_on=True) / all (stop_on=False) of a generator expression over known items, element by element"""
+        node = gen.info["node"]
+        g = node.generators[0]
+        saved = dict(ex.env)
+        try:
+            for x in gen.info["items"]:
+                ex.assign(g.target, x)
+                if not all(ex.branch(ex.truth(ex.expr(c)), f"genexp-if@{node.lineno}") for c in g.ifs):
+                    continue
+                if ex.branch(ex.truth(ex.expr(node.elt)), f"genexp@{node.lineno}") == stop_on:
+                    return Conc(stop_on)
+            return Conc(not stop_on)
+        finally:
+            ex.env.clear()
+            ex.env.update(saved)
+
     def b_any(self, ex, args, kwargs):
+        if len(args) == 1 and isinstance(args[0], ObjV) and args[0].role == "lazy-gen":
+            return self._short_circuit(ex, args[0], True)
         if len(args) == 1 and isinstance(args[0], ObjV) and args[0].role in ("opaque-gen", "opaque-coll"):
             return Z("bool", fresh("any_of_unknown_collection", B))
         raise Untranslatable("any(...)")
 
     def b_all(self, ex, args, kwargs):
+        if len(args) == 1 and isinstance(args[0], ObjV) and args[0].role == "lazy-gen":
+            return self._short_circuit(ex, args[0], False)
         if len(args) == 1 and isinstance(args[0], ObjV) and args[0].role in ("opaque-gen", "opaque-coll"):
             return Z("bool", fresh("all_of_unknown_collection", B))
         raise Untranslatable("all(...)")
